@@ -23,6 +23,9 @@ RULE = ("1-D and 2-D cases on the dyadic grid with NaN injected independently in
         "(function, inputs); non-trivial = at least one NaN slot and at least one valid case")
 
 
+# counters that every complete run must have incremented (harness self-check, see core.run_check)
+EXPECT_COUNTS = ['recipe:', 'recipe_weights_as_input', 'recipe_only_weight_blanked', 'cdf_partial_nan']
+
 def nan_case_1d(rng, fn, n=None):
     n = n or rng.randint(2, 7)
     sizes = {"x": n}
@@ -66,12 +69,14 @@ def recipe_masked_vs_deleted(ctx):
                 w = gens.rand_da(rng, {e: xs[0].sizes[e] for e in dd_}, dims=wdims, lo=1, hi=3, shuffle=False)
                 xs = xs + [recipes.mat(w.assign_coords({e: xs[0][e] for e in wdims}))]
                 nw = len(xs) - 1
+                ctx.count("recipe_weights_as_input")
             having = [i for i, x in enumerate(xs) if d in x.dims]
             # blank every input, or only some of them (the case is invalid as soon as one input is missing). CDF scores:
             # a deleted observation would also leave the common threshold grid, so all inputs are blanked there;
             # single-input functions must lose their own input
-            if nw is not None and rng.random() < 0.4:
+            if nw is not None and "threshold" not in rc.nondata and rng.random() < 0.4:
                 blank = {nw}                                # only the weight of the case is missing
+                ctx.count("recipe_only_weight_blanked")
             elif "threshold" in rc.nondata or rng.random() < 0.4:
                 blank = set(having)
             else:
